@@ -4,10 +4,13 @@ package main
 // topics_lin).  Every case is  (kind history subq msgq)  — see coq/Topics/TopicsEngine.v.
 
 import (
+	"fmt"
 	"math/rand"
+	"runtime"
 	"sort"
 	"strings"
 	"sync"
+	"sync/atomic"
 
 	mqtt "github.com/mochi-mqtt/server/v2"
 	"github.com/mochi-mqtt/server/v2/packets"
@@ -380,10 +383,13 @@ func engTopicsRet(seed int64, tier string, _ []string, out *sx.Out) {
 	for i := range ts {
 		for j := i + 1; j < len(ts); j++ {
 			emitSeq(out, 2, []tOp{ret(ts[i], 1), ret(ts[j], 2)}, nil, filters)
-			if tier != "thorough" || len(ts) <= 30 {
-				for k := j + 1; k < len(ts); k++ {
-					emitSeq(out, 2, []tOp{ret(ts[i], 1), ret(ts[j], 2), ret(ts[k], 3)}, nil, filters)
-				}
+		}
+	}
+	t3 := levelStrings(topicTokens, 2)
+	for i := range t3 {
+		for j := i + 1; j < len(t3); j++ {
+			for k := j + 1; k < len(t3); k++ {
+				emitSeq(out, 2, []tOp{ret(t3[i], 1), ret(t3[j], 2), ret(t3[k], 3)}, nil, filters)
 			}
 		}
 	}
@@ -476,7 +482,7 @@ func engTopicsSeq(seed int64, tier string, _ []string, out *sx.Out) {
 	rng := rand.New(rand.NewSource(seed))
 	n := 4000
 	if tier == "thorough" {
-		n = 150000
+		n = 100000
 	}
 	for i := 0; i < n; i++ {
 		k := 1 + rng.Intn(24)
@@ -495,8 +501,9 @@ func engTopicsLin(seed int64, tier string, _ []string, out *sx.Out) {
 	rng := rand.New(rand.NewSource(seed))
 	n := 3000
 	if tier == "thorough" {
-		n = 100000
+		n = 60000
 	}
+	reordered := 0
 	for i := 0; i < n; i++ {
 		g := 4 + rng.Intn(5) // 4..8 goroutines
 		total := g
@@ -518,20 +525,38 @@ func engTopicsLin(seed int64, tier string, _ []string, out *sx.Out) {
 		}
 		rets := make([][]int, g)
 		var wg sync.WaitGroup
-		start := make(chan struct{})
+		var ready, start int32
 		for t := 0; t < g; t++ {
 			rets[t] = make([]int, len(th[t]))
 			wg.Add(1)
 			go func(t int) {
 				defer wg.Done()
-				<-start
+				atomic.AddInt32(&ready, 1)
+				for atomic.LoadInt32(&start) == 0 { // spin: all goroutines leave the barrier together
+				}
 				for k, o := range th[t] {
 					rets[t][k] = o.apply(x)
 				}
 			}(t)
 		}
-		close(start)
+		for atomic.LoadInt32(&ready) < int32(g) {
+			runtime.Gosched()
+		}
+		atomic.StoreInt32(&start, 1)
 		wg.Wait()
+		// statistic only: was the outcome different from running the goroutines one after the other?
+		y := mqtt.NewTopicsIndex()
+		same := true
+		for t := 0; t < g && same; t++ {
+			for k, o := range th[t] {
+				if o.apply(y) != rets[t][k] {
+					same = false
+				}
+			}
+		}
+		if !same {
+			reordered++
+		}
 		h := sx.L{}
 		for t := 0; t < g; t++ {
 			l := sx.L{}
@@ -549,4 +574,5 @@ func engTopicsLin(seed int64, tier string, _ []string, out *sx.Out) {
 		}
 		out.Case(sx.L{sx.N(4), h, sq, mq})
 	}
+	out.Comment(fmt.Sprintf("topics_lin: %d of %d batches returned values that differ from running the goroutines one after the other", reordered, n))
 }
